@@ -87,7 +87,7 @@ structure WInv (w : World) : Prop where
   past : ∀ p ∈ w.history, p.1 ≤ w.now
 
 /-- the event handler admits a key that is merely named in a user list, enabled or not -/
-def countsDisabled (d : Defects) (ev : EventRule) : Bool := d.hasUserCountsDisabled || ev.admit == .hasUser
+def countsDisabled (d : Defects) (ev : EventRule) : Bool := d.hasUserCountsDisabled || ev.admitBy == .hasUser
 
 /-- why room `r` is in the allowed table of a connection bound to key `k` -/
 def Admitted (d : Defects) (ev : EventRule) (w : World) (k : Key) (r : RoomId) : Prop :=
